@@ -213,8 +213,12 @@ func (ea *ErrAnalysis) guardKind(in ssa.Instruction) string {
 			}
 			// created exactly when the capture handle's Read reported a zero count: a breach of the Source contract by the handle,
 			// not a property of a packet's bytes (that no module Source reports zero for content reasons is R09.1c)
-			if n := a.Norm(); n.Sign && n.Cond.Op == "binop" && n.Cond.Name == "==" && n.Cond.Args[1].IsConst("0") && n.Cond.Args[0].Op == "extract" && n.Cond.Args[0].Name == "0" && n.Cond.Args[0].Args[0].Op == "call" && n.Cond.Args[0].Args[0].Name == "iface:packets.Source.Read" {
-				dl = true
+			if n := a.Norm(); n.Cond.Op == "binop" && len(n.Cond.Args) == 2 && n.Cond.Args[0].Op == "extract" && n.Cond.Args[0].Name == "0" && n.Cond.Args[0].Args[0].Op == "call" && n.Cond.Args[0].Args[0].Name == "iface:packets.Source.Read" {
+				// n == 0, n <= 0, n < 1 (and their negated complements on the false edge)
+				r, op := n.Cond.Args[1], n.Cond.Name
+				if r.IsConst("0") && (n.Sign && (op == "==" || op == "<=") || !n.Sign && (op == "!=" || op == ">")) || r.IsConst("1") && (n.Sign && op == "<" || !n.Sign && op == ">=") {
+					dl = true
+				}
 			}
 		}
 		if !dl {
